@@ -770,3 +770,67 @@ class C06(Base):
 
 
 C06.level_note = Base.level_note + FLOAT_NOTE
+
+
+SIG = F(4494592428115755, 9007199254740992)   # cast(0.499)
+THR = F(4501347827556811, 4503599627370496)   # cast(0.9995)
+
+
+def quat_near_gimbal(rng, side, sign):
+    """exactly unit rational quaternion (w,0,y,0)-like, rotated by a z-twist-free scheme, whose
+    test = xz + yw is just above (side=+1) / just below (side=-1) sign*0.499"""
+    # (w, y) = ((1-s^2)/(1+s^2), 2s/(1+s^2)); test = y*w = 2s(1-s^2)/(1+s^2)^2, increasing on [0, ~0.41]
+    lo, hi = F(0), F(41, 100)
+    f = lambda s: 2 * s * (1 - s * s) / (1 + s * s) ** 2
+    for _ in range(60):
+        mid = (lo + hi) / 2
+        if f(mid) < SIG:
+            lo = mid
+        else:
+            hi = mid
+    s = hi if side > 0 else lo
+    # coarsen the denominator a little while staying on the chosen side
+    w, y = (1 - s * s) / (1 + s * s), 2 * s / (1 + s * s)
+    q = [w, F(0), y * sign, F(0)]
+    return q
+
+
+def euler_to_quat_inputs(rng):
+    return [rng.rat(), rng.rat(), rng.rat()]
+
+
+@prop("C07")
+class C07(Base):
+    title = "Euler angles mean intrinsic X-Y-Z everywhere and round-trip via quaternions"
+    design_ref = "§6 C07"
+    ops = ["m3.from_euler", "m3.from_euler_deg", "m4.from_euler", "b3.from_euler", "q.from_euler", "q.from_euler_deg",
+           "q.to_euler", "m3.from_angle_x", "m3.from_angle_y", "m3.from_angle_z", "m4.from_angle_x", "m4.from_angle_y",
+           "m4.from_angle_z", "q.from_angle_x", "q.from_angle_y", "q.from_angle_z", "rad.turn_div_4", "m3.mul", "q.mul"]
+    oracle_ops = ["o.euler.product"]
+    native_args = float_args("c07")
+    level_note = Base.level_note + FLOAT_NOTE + (" The 0.13 gimbal-cone envelope is stated (gimbal_bound_full) but not proved; "
+                                                 "it is evaluated by the f64 oracle only.")
+
+    def families(self, rng, tier):
+        out = []
+        reps = 8 if tier == "quick" else 300
+        for _ in range(reps):
+            out.append(Case("q.to_euler", rng.unit_quat(), family="unit"))
+            out.append(Case("q.to_euler", rng.distinct(4), family="non-unit"))
+            for side in (1, -1):
+                for sign in (1, -1):
+                    out.append(Case("q.to_euler", quat_near_gimbal(rng, side, sign), family="straddle-0.499"))
+            # well inside the cones
+            h = F(1, 2)
+            out.append(Case("q.to_euler", [h, h, h, h], family="gimbal+"))
+            out.append(Case("q.to_euler", [h, h, -h, h], family="gimbal-"))
+            k = rng.rat_nz()
+            out.append(Case("q.to_euler", [h * k, h * k, h * k, h * k], family="gimbal+scaled"))
+        return out
+
+    def oracle_cases(self, rng, tier):
+        out = []
+        k = 40 if tier == "quick" else 2000
+        for _ in range(k):
+            out.append(Case("o.euler.product", euler_to_quat_inputs(rng), family="oracle"))
+        return out
